@@ -43,7 +43,7 @@ def zone_json(name, lo=None, hi=None):
     tz = pytz.timezone(name)
     if not hasattr(tz, "_utc_transition_times"):
         off = int(tz.utcoffset(datetime(2025, 1, 1)).total_seconds()) if tz.utcoffset(datetime(2025, 1, 1)) else 0
-        z = {"init": off, "tr": []}
+        z = {"init": off, "tr": [], "east": off > 0}
     else:
         times = tz._utc_transition_times
         infos = tz._transition_info
@@ -55,6 +55,7 @@ def zone_json(name, lo=None, hi=None):
                 e = calendar.timegm(t.timetuple())
             tr.append((e, int(info[0].total_seconds())))
         init = tr[0][1]
+        east = tr[0][1] > 0
         tr = tr[1:]
         if lo is not None:
             margin = 2 * 366 * 86400
@@ -62,7 +63,7 @@ def zone_json(name, lo=None, hi=None):
             if before:
                 init = before[-1][1]
             tr = [x for x in tr if lo - margin <= x[0] <= hi + margin]
-        z = {"init": init, "tr": [[a, b] for a, b in tr]}
+        z = {"init": init, "tr": [[a, b] for a, b in tr], "east": east}
     _zone_cache[key] = z
     return z
 
